@@ -17,6 +17,7 @@ from ..common.logger import resonaateLogError, resonaateLogWarning
 from ..physics.bodies import Earth
 from .dynamics_base import Dynamics, DynamicsErrorFlag
 from .integration_events.finite_thrust import ScheduledFiniteThrust
+from .integration_events.scheduled_impulse import ScheduledImpulse
 
 # Type Checking Imports
 if TYPE_CHECKING:
@@ -53,6 +54,19 @@ def checkEarthCollision(r_norm: float):
     if r_norm < Earth.radius + Earth.atmosphere:
         msg = "An RSO is within 100km of Earth surface"
         resonaateLogWarning(msg)
+
+
+def _pendingEvents(events: list, t_events: list) -> list:
+    """Drop the scheduled impulses that fired in this pass: an impulse is delivered exactly once.
+
+    Restarting one ulp after the impulse is not enough to get past it, the event function snaps values
+    within floating point resolution to zero and the solver reads that as a new crossing.
+    """
+    return [
+        event
+        for event, t_event in zip(events, t_events)
+        if not (isinstance(event, ScheduledImpulse) and t_event.size > 0)
+    ]
 
 
 class Celestial(Dynamics, metaclass=ABCMeta):
@@ -196,6 +210,7 @@ class Celestial(Dynamics, metaclass=ABCMeta):
                 events,
                 initial_state,
             )
+            events = _pendingEvents(events, solution.t_events)
 
             # Retrieve final time, this should auto-exit the loop if fully-integrated
             initial_time = solution.t[-1] + spacing(solution.t[-1])
@@ -306,6 +321,7 @@ class Celestial(Dynamics, metaclass=ABCMeta):
                 # an event occurs on a `times`
                 if n_t and current_time == solution.t[-1]:
                     states[..., -1] = current_state.copy()
+                events = _pendingEvents(events, solution.t_events)
 
             # [TODO]: This may not be needed?
             # The reshape should give a _view_ into `states`, but this is just in case
